@@ -259,6 +259,18 @@ macro_rules! deque_fk {
 deque_fk!(Max);
 deque_fk!(Min);
 fk!([const N: usize] Bounds<Q, N>, Q => (Q, Q) {});
+// the order-only filters at the smallest machine integers: unsigned (no negation, no "zero minus x"), and a signed type
+// whose minimum has no negative
+macro_rules! small_int_fk {
+    ($t:ty) => {
+        median_fk!($t);
+        fk!([const N: usize] Max<$t, N>, $t => $t {});
+        fk!([const N: usize] Min<$t, N>, $t => $t {});
+        fk!([const N: usize] Bounds<$t, N>, $t => ($t, $t) {});
+    };
+}
+small_int_fk!(u8);
+small_int_fk!(i8);
 
 macro_rules! conv_fk {
     ($t:ty) => {
@@ -760,6 +772,14 @@ fn build_inner(kind: &str, kv: &KV, wrap: Option<&str>) -> Box<dyn Inst> {
         ("delay", "q") if kv_n(kv, "N") > 16 => with_wide_n!(kv_n(kv, "N"), N => finish_q(Delay::<Q, N>::default(), wrap)),
         ("median", "q") => with_n!(kv_n(kv, "N"), N => finish_q(Median::<Q, N>::default(), wrap)),
         ("median", "f64") => with_n!(kv_n(kv, "N"), N => finish(Median::<f64, N>::default(), wrap)),
+        ("median", "u8") => with_n!(kv_n(kv, "N"), N => finish(Median::<u8, N>::default(), wrap)),
+        ("max", "u8") => with_n!(kv_n(kv, "N"), N => finish(Max::<u8, N>::default(), wrap)),
+        ("min", "u8") => with_n!(kv_n(kv, "N"), N => finish(Min::<u8, N>::default(), wrap)),
+        ("bounds", "u8") => with_n!(kv_n(kv, "N"), N => finish(Bounds::<u8, N>::default(), wrap)),
+        ("median", "i8") => with_n!(kv_n(kv, "N"), N => finish(Median::<i8, N>::default(), wrap)),
+        ("max", "i8") => with_n!(kv_n(kv, "N"), N => finish(Max::<i8, N>::default(), wrap)),
+        ("min", "i8") => with_n!(kv_n(kv, "N"), N => finish(Min::<i8, N>::default(), wrap)),
+        ("bounds", "i8") => with_n!(kv_n(kv, "N"), N => finish(Bounds::<i8, N>::default(), wrap)),
         ("median", "fz") => with_n!(kv_n(kv, "N"), N => finish(Median::<Fz, N>::default(), wrap)),
         ("mean", "q") => with_n!(kv_n(kv, "N"), N => finish_q(Mean::<Q, N>::default(), wrap)),
         ("mean", "i64") => with_n!(kv_n(kv, "N"), N => finish(Mean::<i64, N>::default(), wrap)),
